@@ -3,12 +3,12 @@ E-DERIV over G_ref (CPython-valid sentences) x layouts (LF / CRLF / CR / BOM / t
 all-nodes-with-ranges build; every node of every tree is checked structurally (inside input, char boundaries, start<=end,
 parent encloses children, siblings ordered and disjoint) and against CPython's positions converted to byte offsets."""
 import time, json, hashlib, ast
-from .. import common as C, gref, corpus as K, astcmp as A
+from .. import common as C, gref, corpus as K, astcmp as A, explore as X
 from . import c01
 
 PROP = 'C02'
 CONFIGS = ('all-nodes',)
-LAYOUT_NAMES = ['plain', 'crlf', 'cr', 'bom', 'tab', 'multibyte']
+LAYOUT_NAMES = ['plain', 'crlf', 'cr', 'bom', 'tab', 'multibyte', 'comments', 'spread-comments', 'nofinalnl']
 # lists whose elements legitimately share one range in the reference as well (3.11 gives every piece of an f-string the whole literal)
 SIBLING_EXEMPT = {'JoinedStr.values'}
 # children that precede their parent's start
@@ -134,7 +134,55 @@ def judge(text, obs, want_ref=True):
     return ('equal' if not fails else 'range-fail'), fails
 
 
+def run_lex_shard(args):
+    """E-STR: the lexeme-concatenation and header-template texts of C01 (token adjacency, continuation lines, every newline form, tabs, form
+    feeds, multi-byte comments) that CPython accepts, judged for ranges"""
+    kind, n, shard = args
+    r = C.Result()
+    cases = []
+    for text, tag in c01.lex_texts(kind, n, shard):
+        r.transitions += 1
+        if K.cpython_parse(text, 'exec')[0] is not None:
+            cases.append((text, tag))
+    hashes = set()
+    for chunk in (cases[i:i + 3000] for i in range(0, len(cases), 3000)):
+        res = C.run_worker(['parse\texec\t' + C.hx(t) for t, _ in chunk], cfg='all-nodes')
+        for (text, tag), obs in zip(chunk, res):
+            out, fails = judge(text, obs)
+            r.evaluations += 1
+            r.outcomes['%s:%s' % (kind, out)] += 1
+            r.by_bound[tag] += 1
+            if out in ('equal', 'range-fail'):
+                hashes.add(c01.h64(text))
+                r.validated += 1
+            r.fails.extend(fails)
+    r.extra['_hashes'] = hashes
+    return r
+
+
+def paren_variants(text):
+    """redundant parentheses around every expression occurrence (positions from CPython's own tree of the text): a parenthesised expression is
+    represented by the node of the expression itself, so every enclosing construct must still end after the closing parenthesis"""
+    data = text.encode('utf-8')
+    try:
+        tree = ast.parse(data)
+    except (SyntaxError, ValueError):
+        return
+    starts = line_starts(data)
+    seen = set()
+    for node in ast.walk(tree):
+        if isinstance(node, ast.expr) and getattr(node, 'end_lineno', None) is not None:
+            a = starts[node.lineno - 1] + node.col_offset
+            b = starts[node.end_lineno - 1] + node.end_col_offset
+            if (a, b) in seen:
+                continue
+            seen.add((a, b))
+            yield (data[:a] + b'( ' + data[a:b] + b' )' + data[b:]).decode('utf-8')
+
+
 def run_shard(args):
+    if args[0] in ('lex', 'hdr', 'layout'):
+        return run_lex_shard(args)
     paths, d, tier, start = args
     r = C.Result()
     hashes = set()
@@ -151,6 +199,12 @@ def run_shard(args):
                     continue
                 seen.add(text)
                 cases.append((text, ln, cost))
+            if cost < d:
+                # one more deviation: a redundant pair of parentheses around one expression occurrence
+                for text in paren_variants(gref.render(toks)):
+                    if text not in seen and K.cpython_parse(text, 'exec')[0] is not None:
+                        seen.add(text)
+                        cases.append((text, 'parenthesised', cost + 1))
     for chunk in (cases[i:i + 3000] for i in range(0, len(cases), 3000)):
         res = C.run_worker(['parse\texec\t' + C.hx(t) for t, _, _ in chunk], cfg='all-nodes')
         for (text, ln, cost), obs in zip(chunk, res):
@@ -177,14 +231,21 @@ def run(tier, seed):
     shards = K.shards_for(d, 'file')
     for g in K.group_shards(shards, 400 if tier == 'thorough' else 96):
         jobs.append((g, d, tier, 'file'))
+    nl, nh = c01.LEX_N[tier], c01.HDR_N[tier] - 1
+    jobs += [('lex', nl, sh) for sh in X.prefix_shards(c01.LEX, nl, 1 if tier == 'quick' else 2)]
+    jobs += [('hdr', nh, sh) for sh in X.prefix_shards(c01.HDR, nh, 1 if tier == 'quick' else 2)]
+    from .. import relcheck
+    jobs += [('layout', c01.LAYOUT_N[tier], sh) for sh in X.prefix_shards(relcheck.LAYOUT_LEX, c01.LAYOUT_N[tier], 1)]
     for r in C.pmap(run_shard, jobs):
         allh |= r.extra.pop('_hashes')
         total.merge(r)
     total.states = len(allh)
     total.nontrivial = len(allh)
-    rule = ('E-DERIV over G_ref, every derivation with at most %d non-default alternatives that CPython accepts, rendered under the layouts %s and parsed by the '
+    rule = ('E-DERIV over G_ref, every derivation with at most %d non-default alternatives that CPython accepts, rendered under the layouts %s (sentences below the bound also with a redundant pair of parentheses around each expression occurrence) and parsed by the '
             'all-nodes-with-ranges build; every node of every tree: structural clauses + range equality with CPython line/col converted to byte offsets (for the node kinds '
-            'CPython positions); states = distinct_nontrivial = distinct texts whose tree equals the reference tree (so that ranges can be compared node by node)' % (d, LAYOUT_NAMES))
+            'CPython positions); plus E-STR: every separator-free concatenation of <=%d lexemes of the %d-lexeme alphabet of C01 and every sequence of <=%d header tokens in the %d statement '
+            'templates of C01 and every concatenation of layout lexemes of C01 that CPython accepts; states = distinct_nontrivial = distinct texts whose tree equals the reference tree (so that ranges can be compared node by node)'
+            % (d, LAYOUT_NAMES, nl, len(c01.LEX), nh, len(c01.HDR_TEMPLATES)))
     return C.finish(PROP, tier, seed, t0, total, rule,
                     ['CPython 3.11 lineno/col_offset (UTF-8 bytes within the line, universal newlines, BOM not part of line 1) define the reference extents',
                      'pieces of an f-string carry the range of the whole literal, as in the 3.11 reference'], C.py_version())
